@@ -45,7 +45,7 @@ def run(tier, replay=None):
     cases, g = gen.run_generator("GenConst", work / "gen")
     for c in cases:
         t = c["t"]
-        c["id"] = f"{t['decl']}/{t['form']}/{t['ctx']}"
+        c["id"] = f"{t['decl']}/{t['form']}/{t['ctx']}" + ("" if t["shadow"] == "none" else "/" + t["shadow"])
     cases.sort(key=lambda c: c["id"])
     root = C.fresh_dir(work / "slots")
 
@@ -60,7 +60,7 @@ def run(tier, replay=None):
     C.pmap(one, cases)
     f = work / "cases.ndjson"
     slim = lambda o: dict(exit=o["exit"], rejected=o["rejected"], diag=o["diag"], started=o["started"], out=o["out"])
-    C.write_ndjson(f, [dict(id=c["id"], const_enabled=c["const_enabled"], has_twin=c["has_twin"], twin=c["twin"], cobs=slim(c["cobs"]), tobs=slim(c["tobs"])) for c in cases])
+    C.write_ndjson(f, [dict(id=c["id"], legal=c["legal"], const_enabled=c["const_enabled"], has_twin=c["has_twin"], twin=c["twin"], cobs=slim(c["cobs"]), tobs=slim(c["tobs"])) for c in cases])
     r = C.tlc("CheckConst", "CheckConst", work / "judge", env=dict(CASES=str(f)), workers=8, timeout=1800)
     if r.error or r.invariant_violated:
         raise C.ToolError(f"CheckConst: {r.error or r.invariant_violated}")
@@ -72,6 +72,11 @@ def run(tier, replay=None):
         o = c["cobs"]
         rep.violation(f"const-write {d['id']}", f"{d['id']}: a write to a const binding was not rejected at compile time: exit={o['exit']} rejected={o['rejected']} diagnostic={o['diag']} ran={o['started']} out={o['out']} {o['err'][-150:]!r}",
                       dict(case=c["id"], observed=o, files={f"{n}.ms": t for n, t in c["files"].items()}))
+    for d in r.prints.get("LEGAL", []):
+        c = byid[d["id"]]
+        o = c["cobs"]
+        rep.violation(f"legal {d['id']}", f"{d['id']}: the form denotes a same-named local, not the const: the program must be accepted and the const keep its initializer: expected {d['expected']} ({d['status']}); observed exit={o['exit']} rejected={o['rejected']} out={o['out']} {o['text'][-200:]!r}",
+                      dict(case=c["id"], observed=o, expected=d, files={f"{n}.ms": t for n, t in c["files"].items()}))
     for d in r.prints.get("TWIN", []):
         c = byid[d["id"]]
         o = c["tobs"]
@@ -79,7 +84,8 @@ def run(tier, replay=None):
                       dict(case=c["id"], observed=o, expected=d, files={f"{n}.ms": t for n, t in c["twin_files"].items()}))
     rep.coverage = dict(
         evaluations=len(cases), distinct_nontrivial=len(cases), twins=sum(1 for c in cases if c["has_twin"]),
-        rule="GenConst.tla: every (declaration in {module, typed, function-local, block-local, list, object, optional, class name, imported module, exported member}) x (write form in {=, typed =, += -= *= /= %=, ?=, modify, index =, index +=, field =, field +=, loop counter, unpack}) x (context in {same scope, nested block, loop body, nested function, method}) triple for which the form denotes a write to that binding; each with its mutable twin",
+        rule="GenConst.tla: every (declaration in {module, typed, function-local, block-local, list, object, optional, class name, imported module, exported member}) x (write form in {=, typed =, += -= *= /= %=, ?=, modify, index =, index +=, field =, field +=, loop counter, unpack}) x (context in {same scope, nested block, loop body, nested function, block inside a nested function, method}) triple for which the form denotes a write to that binding; each with its mutable twin; x shadowing {none, a same-named local copy `x = x` at the start of the nested function / method (then `modify` still writes the const - rejected - and every other form writes the local - accepted, const unchanged), a sibling method with a parameter of that name}",
+        legal_shadow_cases=sum(1 for c in cases if c["legal"]),
         exhaustive=True, states=r.distinct + g.distinct, transitions=r.generated + g.generated,
         samples=[dict(id=c["id"], program=list(c["files"].values())[0][-200:], rejected=c["cobs"]["rejected"]) for c in cases[:: max(1, len(cases) // 3)][:3]],
     )
